@@ -39,7 +39,51 @@ def _literal_strings(node, env):
         return out
     if isinstance(node, ast.Name) and node.id in env:
         return env[node.id]
+    if isinstance(node, ast.Name):
+        raise _Stateful(node.id)
     raise Unsupported("collection %s" % ast.dump(node)[:60])
+
+
+class _Stateful(Exception):
+    """membership in a container that is not a literal of the function: a module-level (or otherwise external) object"""
+
+    def __init__(self, name):
+        self.name = name
+
+
+MUTATORS = ("add", "append", "extend", "update", "insert", "setdefault", "pop", "remove", "discard", "clear", "__setitem__")
+
+
+def external_container(fn, name):
+    """-> ('const', values) if `name` is a module-level container of strings that no code of the module mutates,
+    ('state', None) if it is mutated somewhere (its contents depend on the history of the process), else raises"""
+    g = getattr(fn, "__globals__", {})
+    if name not in g:
+        raise Unsupported("free name %s" % name)
+    val = g[name]
+    if not isinstance(val, (set, frozenset, list, tuple, dict)):
+        raise Unsupported("free name %s is a %s" % (name, type(val).__name__))
+    import sys
+
+    mod = sys.modules.get(fn.__module__)
+    tree = ast.parse(inspect.getsource(mod))
+    mutated = False
+    for node in ast.walk(tree):
+        if isinstance(node, ast.Call) and isinstance(node.func, ast.Attribute) and isinstance(node.func.value, ast.Name) and node.func.value.id == name \
+                and node.func.attr in MUTATORS:
+            mutated = True
+        if isinstance(node, (ast.Assign, ast.AugAssign, ast.Delete)):
+            for t in (node.targets if not isinstance(node, ast.AugAssign) else [node.target]):
+                for sub in ast.walk(t):
+                    if isinstance(sub, ast.Subscript) and isinstance(sub.value, ast.Name) and sub.value.id == name:
+                        mutated = True
+        if isinstance(node, ast.Global) and name in node.names:
+            mutated = True
+    if mutated or not isinstance(val, (frozenset, tuple)) and False:
+        return "state", None
+    if all(isinstance(v, str) for v in val):
+        return "const", sorted(val)
+    raise Unsupported("container %s holds non-strings" % name)
 
 
 def translate(cond, key, env):
@@ -52,8 +96,17 @@ def translate(cond, key, env):
         l, op, r = cond.left, cond.ops[0], cond.comparators[0]
         if isinstance(l, ast.Name) and l.id == "key":
             if isinstance(op, (ast.In, ast.NotIn)):
-                vals = _literal_strings(r, env)
-                f = z3.Or(*[key == z3.StringVal(v) for v in vals]) if vals else z3.BoolVal(False)
+                try:
+                    vals = _literal_strings(r, env)
+                    f = z3.Or(*[key == z3.StringVal(v) for v in vals]) if vals else z3.BoolVal(False)
+                except _Stateful as st:
+                    kind, vals = external_container(env["__fn__"], st.name)
+                    if kind == "const":
+                        f = z3.Or(*[key == z3.StringVal(v) for v in vals]) if vals else z3.BoolVal(False)
+                    else:
+                        # contents left behind by earlier calls / other Problems of the same process: arbitrary
+                        f = z3.Function("in_" + st.name, z3.StringSort(), z3.BoolSort())(key)
+                        env.setdefault("__state__", set()).add(st.name)
                 return f if isinstance(op, ast.In) else z3.Not(f)
             if isinstance(op, (ast.Eq, ast.NotEq)) and isinstance(r, ast.Constant) and isinstance(r.value, str):
                 f = key == z3.StringVal(r.value)
@@ -107,9 +160,12 @@ def check_unknown_keys_warn(fn, documented, loop_index=0, timeout_ms=20000, extr
         loops = find_key_loops(fn)
         cond, env, cat, it = loops[loop_index]
         env.update(extra_env or {})
+        env["__fn__"] = fn
         key = z3.String("key")
         f = translate(cond, key, env)
-    except (Unsupported, IndexError) as e:
+        state = sorted(env.pop("__state__", ()))
+        env.pop("__fn__", None)
+    except (Unsupported, IndexError, _Stateful) as e:
         return [("%s: key loop" % fn.__name__, "inconclusive", "source not in the translatable subset: %s" % e, "", 0.0)]
     doc = z3.Or(*[key == z3.StringVal(v) for v in documented])
     # "unknown" keys are those neither documented for users nor listed as implemented in the source
@@ -127,7 +183,8 @@ def check_unknown_keys_warn(fn, documented, loop_index=0, timeout_ms=20000, extr
         detail = ""
         if r == "sat":
             detail = s.model()[key].as_string() if s.model()[key] is not None else ""
-        out.append(("%s: %s" % (fn.__name__, oid), {"unsat": "discharged", "sat": "candidate"}.get(r, "inconclusive"), detail, s.to_smt2(), time.time() - t0))
+        out.append(("%s: %s%s" % (fn.__name__, oid, (" (for any contents of %s left by earlier calls)" % ", ".join(state)) if state else ""),
+                    {"unsat": "discharged", "sat": "candidate"}.get(r, "inconclusive"), detail, s.to_smt2(), time.time() - t0))
     if cat is None or "RuntimeWarning" not in cat:
         out.append(("%s: warning category is RuntimeWarning" % fn.__name__, "candidate", "category=%s" % cat, "", 0.0))
     else:
